@@ -1039,8 +1039,8 @@ func TestConversationRandom(t *testing.T) {
 		if msg := runConversation(run, &st); msg != "" {
 			t.Fatalf("%s\ncase: %s", msg, hx.JSON(run.desc()))
 		}
-		hx.Class(fmt.Sprintf("conversation/%s/messages=%d/delivered=%d/discarded=%d/rejected=%d",
-			entryNames[run.entry], nmsg, st.delivered, st.discarded, st.rejectedEarly+st.rejectedAtEnd))
+		hx.Class(fmt.Sprintf("conversation/%s/messages=%d/delivered-before-the-end=%v/discarded=%v/rejected=%v",
+			entryNames[run.entry], nmsg, st.delivered > 0, st.discarded > 0, st.rejectedEarly+st.rejectedAtEnd > 0))
 		if st.delivered+st.discarded >= 1 && nmsg >= 2 && ntext >= 1 {
 			hx.NonTrivial(hx.Hash("conv", ref.Shape(frames), wireHash(frames), fmt.Sprint(run.discard), run.entry), func() interface{} {
 				return map[string]interface{}{"kind": "conversation", "frames": ref.Describe(frames), "entry": entryNames[run.entry], "discard_after": run.discard}
